@@ -393,6 +393,13 @@ class PointsTo:
                     # a module-level constant tuple of field names
                     vals = fn.module.assigns.get(p_.id, [])
                     p_ = vals[0] if len(vals) == 1 and isinstance(vals[0], ast.Tuple) else p_
+                if isinstance(p_, ast.Attribute) and isinstance(p_.value, ast.Name) and fn.cls is not None and p_.value.id in (fn.self_name, "cls", fn.cls.name):
+                    # a class-level constant tuple of field names: `for key in self.seed_fields`
+                    for c_ in self.prog.mro(fn.cls):
+                        vals = c_.class_assigns.get(p_.attr, [])
+                        if vals:
+                            p_ = vals[0] if len(vals) == 1 and isinstance(vals[0], (ast.Tuple, ast.List)) else p_
+                            break
                 if isinstance(p_, (ast.Tuple, ast.List)) and p_.elts and all(const_str(x) is not None for x in p_.elts):
                     out += [const_str(x) for x in p_.elts]
                 else:
